@@ -302,8 +302,21 @@ def run_dates(ctx, bi):
 
     def on_result(case, out, outs, ok):
         r.count('fn:' + case['formula'][1:case['formula'].index('(')])
-    judge_book(ctx, ID, wbspec.spec(wbspec.sheet('S', cells)), [(0, a) for a in forms], vals, exact=False, name=f'dt{bi}', monitor='criteria-reference',
-               classify=classify, nontrivial=lambda case, outs: is_num(outs[0]) and outs[0] != 0, on_result=on_result)
+    book = judge_book(ctx, ID, wbspec.spec(wbspec.sheet('S', cells)), [(0, a) for a in forms], vals, exact=False, name=f'dt{bi}', monitor='criteria-reference',
+                      classify=classify, nontrivial=lambda case, outs: is_num(outs[0]) and outs[0] != 0, on_result=on_result)
+    # a date or a time of day IN THE SUM RANGE (a timesheet): what it adds is not stated (Excel adds the serial number, the library passes
+    # over it like SUM does) - but the conditional sum is a value, never a failure of the addition
+    ov = list(vals[-1]) + [(0, f'B{rng.randrange(1, 9)}', rng.choice(DAYS)), (0, f'B{rng.randrange(1, 9)}', dt.time(8, 30))]
+    for a in forms:
+        f = cells[a]
+        if not f.startswith(('=SUMIF(', '=SUMIFS(')):
+            continue
+        o = book.value(0, a, ov)
+        r.ev()
+        r.count('sums_over_a_target_range_with_a_date')
+        if not o.ok and o.kind != pipeline.LIB_EXC:
+            report(r, ID, None, {'formula': f, 'cell': a, 'sheet': 0, 'overrides': ov, 'spec': wbspec.spec(wbspec.sheet('S', cells))}, o.brief(),
+                   'a value (whatever a date adds to it)', monitor='criteria-reference')
 
 
 CLOCKS = [dt.datetime(2024, 3, 1, 9, 0), dt.datetime(2024, 3, 15, 9, 0), dt.datetime(2024, 3, 31, 23, 59), dt.datetime(2024, 2, 29, 12, 0), dt.datetime(2024, 4, 30, 0, 0),
